@@ -229,7 +229,7 @@ int main(int argc, char ** argv)
 {
     const char * file = NULL, * src = NULL, * entry = "main", * dumpf = NULL, * tracef = NULL, * resf = NULL, * bdump = NULL;
     unsigned int mem = DEFAULT_VM_MEM_SIZE, stack = DEFAULT_VM_STACK_SIZE; int gcmode = 0, execs = 1, c, ret, k;
-    const char * pre[16]; int npre = 0; program * preprog[16]; char * calls = NULL;
+    const char * pre[16]; int npre = 0; program * preprog[16]; char * calls = NULL; char cwd0[4096];
     while ((c = getopt(argc, argv, "f:e:m:s:g:n:D:T:L:R:x:P:c:B:")) != -1)
     {
         switch (c)
@@ -248,6 +248,8 @@ int main(int argc, char ** argv)
     if (rf) setvbuf(rf, NULL, _IOLBF, 0);
     if (__sanitizer_set_death_callback) { __sanitizer_set_death_callback(on_death); signal(SIGABRT, on_signal); /* assert(): ASan does not intercept abort() */ }
     else { signal(SIGSEGV, on_signal); signal(SIGABRT, on_signal); signal(SIGFPE, on_signal); signal(SIGBUS, on_signal); }
+    cwd0[0] = 0;
+    if (getcwd(cwd0, sizeof cwd0) == NULL) cwd0[0] = 0;
     for (k = 0; k < npre; k++)
     {
         int r0;
@@ -260,6 +262,12 @@ int main(int argc, char ** argv)
         if (rf) fprintf(rf, "precompile %d %d msgs=%u\n", k, r0, preprog[k]->msg_count);
         if (del) { program_delete(preprog[k]); preprog[k] = NULL; }
     }
+    {
+        /* the working directory is process state too: no compilation may leave the process elsewhere */
+        char cwd1[4096]; cwd1[0] = 0;
+        if (getcwd(cwd1, sizeof cwd1) == NULL) cwd1[0] = 0;
+        if (rf) fprintf(rf, "cwd_after_pre %d\n", strcmp(cwd0, cwd1) != 0);
+    }
     program * prog = program_new();
     fn_count = 0;
     never_verif_func_hook = func_hook;
@@ -268,6 +276,9 @@ int main(int argc, char ** argv)
     if (rf)
     {
         unsigned int q;
+        char cwd2[4096]; cwd2[0] = 0;
+        if (getcwd(cwd2, sizeof cwd2) == NULL) cwd2[0] = 0;
+        fprintf(rf, "cwd_after_compile %d\n", strcmp(cwd0, cwd2) != 0);
         fprintf(rf, "compile %d msgs=%u\n", ret, prog->msg_count);
         for (q = 0; q < prog->msg_count; q++) { unsigned char * t = (unsigned char *)prog->msg_array[q]; fprintf(rf, "msg "); for (; t && *t; t++) fprintf(rf, "%02x", *t); fprintf(rf, "\n"); }
     }
